@@ -1004,7 +1004,8 @@ def blowout_sequences(ctx, r, n, lines, owners):
         if isinstance(o, float):
             return [i for i, c in enumerate(currents) if isinstance(c, float) and c == o][0]
         return idmap.get(id(o), (None, -1))[1]
-    currents = [np.array([0.05, 0., 0.]), 0.12, np.array([0.08, -0.03])]
+    currents = [np.array([0.05, 0., 0.]), 0.12, np.array([0.08, -0.03]), np.array([0.45, -0.07, 0.]), np.array([-0.02, 0.21])]
+    ctx.blow_reuse = 0
     calls = []
     orig_get_oil = blowout.dbm_utilities.get_oil
 
@@ -1027,6 +1028,7 @@ def blowout_sequences(ctx, r, n, lines, owners):
                 init['num_oil_elements'] = 0
             nops = r.randint(1, 8)
             ops = []
+            force_reuse = False
             for _k in range(nops):
                 op = r.choice(OPS)
                 ops.append((op, op_value(r, op, waters, currents)))
@@ -1058,6 +1060,21 @@ def blowout_sequences(ctx, r, n, lines, owners):
                 if r.random() < 0.5:
                     o = r.choice(['release_depth', 'orifice_diameter', 'current_data'])
                     ops.append((o, op_value(r, o, waters, currents)))
+            elif seq < len(OPS) + 13:
+                # sweep: the caller keeps ONE current array, edits it in place and delivers it again (constructor + update, or two
+                # updates), with no water update afterwards — an object that compares the new current with the one it stored
+                # (the same array) sees "no change".  The water data are None / a surface-water dict: with a ready-made
+                # ambient.Profile get_ambient_profile uses the profile as it is and ignores the current altogether
+                init['water'] = r.choice([I_NONE, I_COLD, I_COLD + 1])
+                init['num_oil_elements'] = max(init['num_oil_elements'], 1)
+                init['current'] = r.choice([0, 2, 3, 4])
+                partner = {0: 3, 3: 0, 2: 4, 4: 2}
+                k = seq - (len(OPS) + 10)
+                pre = [(o, op_value(r, o, waters, currents)) for o in r.sample([o for o in OPS if o not in ('water_data', 'current_data', 'num_oil_elements')], k)]
+                ops = pre + [('current_data', partner[init['current']])]
+                if k == 2:
+                    ops.append(('current_data', init['current']))
+                force_reuse = True
             elif r.random() < 0.4:
                 which = r.choice(['num_oil_elements', 'num_gas_elements'])
                 pos = r.randrange(len(ops) + 1)
@@ -1114,6 +1131,8 @@ def blowout_sequences(ctx, r, n, lines, owners):
             # ---- the history object: the fresh object exists, so a raise here means the history is NOT "identical to one
             #      constructed directly with the final parameters"
             try:
+                reused = []
+                descr['caller_reuses_its_current_array_at_op'] = reused
                 trace = [[int(b.update), int(b.new_oil), int(b.q_type)] + ident(b)]
                 for op, v in ops:
                     val = v
@@ -1122,7 +1141,18 @@ def blowout_sequences(ctx, r, n, lines, owners):
                     elif op == 'water_data':
                         val = give('water', v, hist_inputs)
                     elif op == 'current_data':
-                        val = give('current', v, hist_inputs)
+                        held = b.current
+                        if (isinstance(held, np.ndarray) and isinstance(currents[v], np.ndarray) and held.shape == currents[v].shape
+                                and (force_reuse or r.random() < 0.5)):
+                            # the CALLER edits the array it handed over earlier and delivers the same object again
+                            held[...] = currents[v]
+                            idmap[id(held)] = ('current', v)
+                            hist_inputs[:] = [(k_i, (v if o_i is held else i_i), o_i, (in_snap(k_i, o_i) if o_i is held else s_i))
+                                              for k_i, i_i, o_i, s_i in hist_inputs]
+                            val = held
+                            reused.append(len(trace) - 1)
+                        else:
+                            val = give('current', v, hist_inputs)
                     getattr(b, 'update_' + op)(val)
                     trace.append([int(b.update), int(b.new_oil), int(b.q_type)] + ident(b))
                 ncalls0 = len(calls)
@@ -1155,6 +1185,9 @@ def blowout_sequences(ctx, r, n, lines, owners):
             flips = zero0 != zero1
             ctx.blow_last.add(ops[-1][0])
             ctx.blow_flips += int(flips)
+            if reused:
+                ctx.blow_reuse += 1
+                ctx.count('blowout sequence in which the caller edits its own current array in place and delivers it again')
             ctx.count('blowout sequence' + (' (oil bins switched on/off: q_type convention changes)' if flips else ''))
             if any(v == 0 for o, v in ops if o in ('num_oil_elements', 'num_gas_elements')):
                 ctx.count('blowout sequence switching bins to zero')
@@ -1328,7 +1361,7 @@ def run(ctx, lean_ok):
     profile_histories(ctx, r, ctx.n(40, 800), lines, owners)
     coefs_cases(ctx, r, ctx.n(40, 600), lines, owners)
     check_reference(ctx, 'after the profile histories')
-    blowout_sequences(ctx, r, ctx.n(23 + 12, 23 + 300), lines, owners)
+    blowout_sequences(ctx, r, ctx.n(26 + 12, 26 + 300), lines, owners)
     check_reference(ctx, 'end of the run')
     ctx.oblige('process-level purity: the canonical reference set (Profile(None) at 10 depths, Blowouts on water=None and on two '
                'surface-water dicts, database mixture / particle properties; fresh objects every time) re-evaluated %d times during the '
@@ -1336,6 +1369,8 @@ def run(ctx, lean_ok):
                'too few re-evaluations')
     ctx.oblige('Blowout floor: %d compared sequences contain update_water_data with a surface-water dict followed later by water=None '
                '(floor 5)' % ctx.blow_dict_then_none, ctx.blow_dict_then_none >= 5, 'generator floor not reached')
+    ctx.oblige('Blowout floor: %d compared sequences in which the caller re-delivers its own current array after editing it in place '
+               '(floor 3)' % ctx.blow_reuse, ctx.blow_reuse >= 3, 'generator floor not reached')
     ob = ctx.objects
     ctx.oblige('objects built with user_data overriding C_pen / C_pen_T (non-zero, first component included): %d of %d mixtures, '
                '%d of %d fluid particles (floor 30 %% each)' % (ob.get('mixture-user-C_pen', 0), ob.get('mixture', 0),
